@@ -384,14 +384,14 @@ func bridgeDriver(a *Args) {
 	// pair server connections: each client first sends its connection number as one byte outside the judged stream
 	sconn := map[int]net.Conn{}
 	for _, p := range peers {
-		p.conn.Write([]byte{byte(p.c)})
+		p.conn.Write([]byte{byte(p.c >> 24), byte(p.c >> 16), byte(p.c >> 8), byte(p.c)})
 	}
 	for range peers {
 		select {
 		case sc := <-srv.conns:
-			one := make([]byte, 1)
-			if _, err := io.ReadFull(sc, one); err == nil {
-				sconn[int(one[0])] = sc
+			four := make([]byte, 4)
+			if _, err := io.ReadFull(sc, four); err == nil {
+				sconn[int(four[0])<<24|int(four[1])<<16|int(four[2])<<8|int(four[3])] = sc
 			}
 		case <-time.After(10 * time.Second):
 			res.Bad("missing bridged connection")
